@@ -103,7 +103,11 @@ class GlobalFilter:
     def unify_options(self, feat_options: Options, filter_options: Options) -> Options:
         for key, value in feat_options.items():
             if key not in filter_options:
-                filter_options.set(key, value)
+                if key in feat_options.context:
+                    # keep context options in the context: they must not change the group options of the filter feature
+                    filter_options.add_to_context(key, value)
+                else:
+                    filter_options.set(key, value)
             else:
                 if filter_options.get(key) == value:
                     continue
